@@ -130,6 +130,11 @@ void run_sweep(Stats& st) {
 		tp[0] = uint8_t(variant); tp[1] = 12;
 		Tape t(tp); map_case(m, t, st);
 	}
+	// more than 65536 tiles, and not a multiple of 65536 (whatever block size a reader takes the tile array in)
+	for (unsigned v = 0; v < 4; ++v) { if (!sw("many_tiles", v)) continue; const unsigned dims[4][2] = {{9, 129}, {10, 65}, {7, 1000}, {5, 4097}};
+		LMap m; m.lgWidth = dims[v][0]; m.height = dims[v][1]; m.tiles.resize(size_t(m.height) << m.lgWidth); for (size_t i = 0; i < m.tiles.size(); ++i) m.tiles[i] = uint32_t(i * 0x9E3779B1u + v); m.versionTag = 0x1011; m.mappings = {{1, 2, 3, 4}}; m.sources = {{"well0001", 9}};
+		for (size_t i = 0; i < tp.size(); ++i) tp[i] = uint8_t(i * 13 + v); tp[1] = 6;
+		Tape t(tp); map_case(m, t, st); }
 	// every table on its own grown past 64 KiB and 128 KiB of serialised bytes (a staging block of such a size must not show), with eight
 	// alignments of the group section so that the block boundary falls into dimensions, index arrays, name lengths and names
 	for (unsigned which = 0; which < 4; ++which) for (unsigned v = 0; v < (which == 0 ? 8u : 2u); ++v) {
